@@ -26,7 +26,8 @@ namespace occa {
 
     template <class T>
     static inline bool hasNegativeBitSet(const T &t) {
-      return t & (1 << (sizeof(T) - 1));
+      // Top (sign) bit of T: [sizeof] counts bytes, not bits
+      return (t >> (8 * sizeof(T) - 1)) & 1;
     }
 
     bool isZero() const;
